@@ -293,6 +293,55 @@ example : (ExtBlock.oneByte [.pad, .elem 3 [1, 2], .pad] (some (0, [0xBB, 0xCC, 
     (ExtBlock.twoByte 0 [.elem 200 [], .pad, .pad, .elem 1 [1, 2, 3]]).WF = true ∧
     (ExtBlock.legacy 0x1234 [1, 2, 3, 4]).WF = true := by decide
 
+theorem describeBlock_sound (bytes : Bytes) (b : ExtBlock) (h : ExtBlock.describe bytes = some b) :
+    b.WF = true ∧ b.encode = bytes := by
+  simp only [ExtBlock.describe] at h
+  split at h
+  · split at h
+    · rename_i hc
+      cases h
+      simpa using hc
+    · cases h
+  · cases h
+
+/-- `c03.view` on ARBITRARY bytes: whenever they are the image of a well-formed block (found by the
+    specification's decoder, re-checked with `ExtBlock.encode`) with zero appbits, the view of the
+    matching form satisfies sentence (3) -/
+theorem c03_view_any (k : ViewKind) (bytes : Bytes) (qs : List UInt8) (fill : UInt8)
+    (hreg : ∀ b, ExtBlock.describe bytes = some b → b.appbits = false) :
+    Pred.C03.view { kind := k, block := none, bytes := bytes, queries := qs, fill := fill }
+      (Pred.C03.modelView { kind := k, block := none, bytes := bytes, queries := qs, fill := fill }) = true := by
+  simp only [Pred.C03.view, Pred.C03.ViewIn.desc]
+  cases hd : ExtBlock.describe bytes with
+  | none => rfl
+  | some b =>
+    obtain ⟨hw, henc⟩ := describeBlock_sound bytes b hd
+    have ha := hreg b hd
+    subst henc
+    simp only
+    by_cases hf : Pred.C03.formMatches k b = true
+    · cases b with
+      | oneByte items stop =>
+        cases k <;> simp only [Pred.C03.formMatches] at hf <;> try (exact absurd hf (by decide))
+        have := view_onebyte items stop qs fill hw
+        simp only [Pred.C03.view, Pred.C03.ViewIn.desc] at this
+        exact this
+      | twoByte a items =>
+        cases k <;> simp only [Pred.C03.formMatches] at hf <;> try (exact absurd hf (by decide))
+        have ha0 : a = 0 := by simpa [ExtBlock.appbits] using ha
+        subst ha0
+        have := view_twobyte items qs fill hw
+        simp only [Pred.C03.view, Pred.C03.ViewIn.desc] at this
+        exact this
+      | legacy p ws =>
+        cases k <;> simp only [Pred.C03.formMatches] at hf <;> try (exact absurd hf (by decide))
+        have := view_raw p ws qs fill hw
+        simp only [Pred.C03.view, Pred.C03.ViewIn.desc] at this
+        exact this
+    · simp only [Bool.not_eq_true] at hf
+      simp [hf]
+
+
 /-- "the views decode the same block to the same ids and values" stated between the two decoders
     directly: `Header.GetExtensionIDs` / `GetExtension` on the header decoded from a well-formed
     image (no reserved id, zero appbits) and `GetIDs` / `Get` of the one-byte resp. two-byte view on
